@@ -97,9 +97,25 @@ func H_C07_np_splice() {
 	if verif.Tier() > 0 {
 		n = 5
 	}
-	l := verif.Choice("len", n+1)
-	b := make([]byte, l)
-	for i := 0; i < l; i++ {
+	var s string
+	l := 0
+	if verif.Choice("mode", 2) == 1 {
+		// sequences of lexer tokens (longer texts than the byte strings below reach): the parser may
+		// give up while the lexer goroutine still has tokens to deliver
+		toks := []string{"${", "}", ":", ":+", ":?", "a", "$$", "."}
+		nt := verif.Choice("ntok", n+2)
+		for i := 0; i < nt; i++ {
+			s += toks[verif.Choice("tok["+itoa(i)+"]", len(toks))]
+		}
+		l = 99
+	} else {
+		l = verif.Choice("len", n+1)
+	}
+	b := make([]byte, 0)
+	if l != 99 {
+		b = make([]byte, l)
+	}
+	for i := 0; i < len(b); i++ {
 		// alphabet of the expansion lexer: $ { } : + ? . letter
 		switch verif.Choice("s.class["+itoa(i)+"]", 8) {
 		case 0:
@@ -120,7 +136,13 @@ func H_C07_np_splice() {
 			b[i] = 'a'
 		}
 	}
-	s := string(b)
+	if l != 99 {
+		s = string(b)
+	}
+	opts := []ucfg.Option{ucfg.VarExp, ucfg.PathSep(".")}
+	if verif.Choice("escape-path", 2) == 1 {
+		opts = append(opts, ucfg.EscapePath())
+	}
 	verif.Reach("monitor: splice parsed")
 	// the lexer runs in its own goroutine. Scheduling: run-until-blocked or yield-at-every-channel-operation
 	// (the two extreme policies); thorough: for strings up to length 2 every interleaving of the channel operations
@@ -133,11 +155,12 @@ func H_C07_np_splice() {
 		}
 	}
 	verif.NoPanic("C07/varexp setting panics", func() {
-		c, err := ucfg.NewFrom(map[string]interface{}{"a": "x", "v": s}, ucfg.VarExp, ucfg.PathSep("."))
+		c, err := ucfg.NewFrom(map[string]interface{}{"a": "x", "e": "", "v": s, "n": "${${e}}"}, opts...)
 		if err == nil {
-			c.String("v", -1, ucfg.VarExp, ucfg.PathSep("."))
+			c.String("v", -1, opts...)
+			c.String("n", -1, opts...)
 			var m map[string]interface{}
-			c.Unpack(&m, ucfg.VarExp, ucfg.PathSep("."))
+			c.Unpack(&m, opts...)
 		}
 	})
 }
@@ -196,8 +219,13 @@ func H_C07_np_addr() {
 	if verif.Choice("pathsep", 2) == 1 {
 		opts = append(opts, ucfg.PathSep("."))
 	}
-	c := addrPreState(opts)
 	name := addrName()
+	if !verif.IsSym(name) && verif.Choice("escape-path", 2) == 1 {
+		// (the bracket syntax is recognised with a regular expression: concrete names only)
+		opts = append(opts, ucfg.EscapePath())
+		name = []string{name, "[b.l]", "b.[l]", "[", "[]", "[a", "a]"}[verif.Choice("escaped-name", 7)]
+	}
+	c := addrPreState(opts)
 	idx := verif.Int("idx")
 	op := verif.Choice("op", 14)
 	verif.AllocLimit(5)
@@ -356,15 +384,27 @@ func H_C07_np_targets() {
 
 // H_C07_np_keys: NewFrom of a map whose key is an arbitrary short string.
 func H_C07_np_keys() {
-	n := 1 + verif.Choice("len", 3)
-	k := verif.Bytes("key", n)
-	for i := 0; i < n; i++ {
-		b := k[i]
-		verif.Assume(verif.Or(verif.Or(verif.And(b >= '0', b <= '9'), verif.Or(b == '-', b == '+')), verif.Or(verif.Or(b == '.', b == 'a'), verif.Or(b == 'x', b == '_'))))
-	}
 	opts := []ucfg.Option{ucfg.MaxIdx(4)}
 	if verif.Choice("pathsep", 2) == 1 {
 		opts = append(opts, ucfg.PathSep("."))
+	}
+	var k string
+	if verif.Choice("key-mode", 2) == 1 {
+		// concrete keys, with and without the bracket escape syntax switched on
+		k = []string{"", "a", ".", "[a.b]", "[a.b].c", "x.[y.z]", "[", "]", "[]", "a.[", "[a", "[0]", "0.[1]"}[verif.Choice("key-text", 13)]
+		if verif.Choice("escape-path", 2) == 1 {
+			opts = append(opts, ucfg.EscapePath())
+		}
+		if verif.Choice("num-keys", 2) == 1 {
+			opts = append(opts, ucfg.EnableNumKeys(true))
+		}
+	} else {
+		n := 1 + verif.Choice("len", 3)
+		k = verif.Bytes("key", n)
+		for i := 0; i < n; i++ {
+			b := k[i]
+			verif.Assume(verif.Or(verif.Or(verif.And(b >= '0', b <= '9'), verif.Or(b == '-', b == '+')), verif.Or(verif.Or(b == '.', b == 'a'), verif.Or(b == 'x', b == '_'))))
+		}
 	}
 	verif.AllocLimit(5)
 	verif.Reach("monitor: key normalised")
